@@ -19,10 +19,13 @@ type zzMenuTx struct {
 	to    int
 	power int64
 	amt   *uint256.Int
+	time  int64 // the client-chosen creation time carried by the transaction (arbitrary)
+	gas   uint64
 }
 
 func zzNondetMenuTx(tag string) *zzMenuTx {
-	m := &zzMenuTx{kind: zzverif.Choose(tag+".kind", 4)}
+	m := &zzMenuTx{kind: zzverif.Choose(tag+".kind", 5)}
+	m.time = zzverif.NondetI64In(tag+".time", 1, 1<<62)
 	switch m.kind {
 	case 1: // delegation A2 -> A0/A1
 		m.to = zzverif.Choose(tag+".to", 2)
@@ -30,11 +33,21 @@ func zzNondetMenuTx(tag string) *zzMenuTx {
 	case 2: // transfer A2 -> A1
 		m.amt = zzverif.NondetU256Below(tag+".amount", zzMaxBalance())
 	case 3: // A1 unbonds its genesis stake
+	case 4: // A2 deploys a contract; the gas limit may exceed the per-block EVM gas budget
+		m.gas = zzverif.NondetU64In(tag+".gas", 100000, 60000000)
 	}
 	return m
 }
 
 func (m *zzMenuTx) build(n *zzNode) *zzTx {
+	t := m.build0(n)
+	if t != nil {
+		t.time = m.time
+	}
+	return t
+}
+
+func (m *zzMenuTx) build0(n *zzNode) *zzTx {
 	g := n.gov
 	switch m.kind {
 	case 1:
@@ -44,6 +57,9 @@ func (m *zzMenuTx) build(n *zzNode) *zzTx {
 	case 3:
 		return &zzTx{from: 1, to: 1, typ: ctrlertypes.TRX_UNSTAKING, amount: uint256.NewInt(0), gas: g.MinTrxGas(), gasPrice: g.GasPrice(), nonce: n.nonce(1), signer: 1,
 			payload: &ctrlertypes.TrxPayloadUnstaking{TxHash: make([]byte, 32)}}
+	case 4:
+		return &zzTx{from: 2, to: -1, typ: ctrlertypes.TRX_CONTRACT, amount: uint256.NewInt(0), gas: m.gas, gasPrice: g.GasPrice(), nonce: n.nonce(2), signer: 2,
+			payload: &ctrlertypes.TrxPayloadContract{Data: zzInitCode(0, nil)}}
 	}
 	return nil
 }
